@@ -359,8 +359,16 @@ class G:
 def _sub_gen(uid, rnd):
     lines = ["def sub_%s(n):" % uid, "    LOG.append(('sub-start', n))", "    try:",
              "        x = yield ('s', n)", "        LOG.append(('sub-got', x))"]
-    c = rnd.randint(0, 3)
-    if c == 0:
+    c = rnd.randint(0, 5)
+    if c == 4:
+        # delegate whose close() FAILS: GeneratorExit is turned into another exception
+        lines += ["        try:", "            y = yield ('s2', x)", "        except GeneratorExit:", "            LOG.append('sub-genexit-fails')",
+                  "            raise EB('sub-close-failed')", "        return ('subret', y)"]
+    elif c == 5:
+        # delegate that ignores GeneratorExit and yields again (close() -> RuntimeError)
+        lines += ["        try:", "            y = yield ('s2', x)", "        except GeneratorExit:", "            LOG.append('sub-genexit-ignored')",
+                  "            y = yield ('s-ignored', 0)", "        return ('subret', y)"]
+    elif c == 0:
         lines += ["        y = yield ('s2', x)", "        return ('subret', y)"]
     elif c == 1:
         lines += ["        try:", "            y = yield ('s2', x)", "        except EA as e:", "            LOG.append(('sub-caught', e.args))",
